@@ -247,7 +247,7 @@ theorem C03_x86_example :
       (σ'.get X86.RSP).toNat = 0x7f0000003230 := by
   obtain ⟨s', hint, hmem⟩ := exInterp
   have h := C03_x86_accepted exEnv (fun _ => none) false exCfg exLocs exExit exMem exSt 10 42#64 s'
-    exCheck exCompile (fun _ _ h => by cases h) (by decide +kernel) exCovered exNoLocalCall exNoF7
+    exCheck exCompile (fun _ _ h => by cases h) exCovered exNoLocalCall exNoF7
     (by decide +kernel) (Or.inr (by decide +kernel)) exEntry (fun _ => rfl) (fun _ => rfl) exRegIndep hint
   rw [hmem] at h
   exact h
@@ -277,8 +277,8 @@ example :
     locations, every jump landing on an arm or on the epilogue, and the epilogue -/
 theorem C12_code_wellformed_example :
     JitAst.validate exProg (fun _ => none) false false exCode { pcLocs := exLocs, exitLoc := exExit } = true :=
-  C12_code_wellformed exProg (fun _ => none) false false exCode exLocs exExit exCheck exCompile
-    (fun _ _ h => by cases h) (by decide +kernel)
+  (C12_code_wellformed exProg (fun _ => none) false false exCode exLocs exExit exCheck exCompile
+    (fun _ _ h => by cases h)).1
 
 set_option maxRecDepth 100000 in
 /-- … and the validator, evaluated on them, says so -/
@@ -429,7 +429,7 @@ theorem C03_x86_calls_example :
       σ'.log.map (·.2) = [[5#64, 6#64, 7#64, 8#64, 9#64]] ∧ σ'.misaligned = 0 := by
   obtain ⟨s', hint, hmem, hlog⟩ := exInterpC
   have h := C03_x86_calls exEnvC exHaddr false exCfgC exLocsC exExitC exMem exSt 10 42#64 s'
-    exCheckC exCompileC exExtOk (by decide +kernel) exCoveredC exNoLocalCallC exNoF7C
+    exCheckC exCompileC exExtOk exCoveredC exNoLocalCallC exNoF7C
     (by decide +kernel) (Or.inr (by decide +kernel)) exEntryC rfl (by decide +kernel) (fun _ => rfl) (fun _ => rfl)
     exClobIndep hint
   rw [hmem, hlog] at h
